@@ -75,10 +75,10 @@ def run_op(contract, opts):
                 if e2e:
                     rp['end_to_end'] = e2e
                     rp['status'] = 'reproduced'
-            if o.extra.get('needs_validation') and not e2e:
+            if (o.extra.get('needs_validation') or o.extra.get('candidate_only')) and not e2e:
                 # candidate model from weakened hypotheses: it counts only when a real input reproduces the violation end to end
                 # (a function-level replay is not enough here: the candidate pre-state may violate the `requires`)
-                o.result = 'unknown'; o.backend = (o.backend or '') + ' candidate model not confirmed end-to-end'
+                o.result = 'unknown'; o.backend = (o.backend or '') + ' candidate model not confirmed end-to-end' + (': ' + o.extra['candidate_only'] if o.extra.get('candidate_only') else '')
                 continue
             violations.append({'obligation': o.name, 'replay': rp, 'model': model_text(o.model) if o.model is not None else None})
     cross = crosscheck(w, run, rep, opts) if (opts.get('tier') == 'thorough' or opts.get('crosscheck')) else None
